@@ -133,6 +133,55 @@ Print Assumptions C20_usable_after_earlier_attempt.
    handshake starts) and stream lookups that still see the old connection's registry entry; the
    registry's connection bookkeeping is the subject of C14 (model/PeerRegistry.v). *)
 
+(* MUTUAL DIAL.  A connect operation can also succeed WITHOUT a handshake of its own: when
+   B = [ini c] has dialled A = [rsp c] and A's handler has registered B, A's Connect(B) reports
+   success through the isConnected shortcut; the streams A then opens are answered by B -- the
+   handshake INITIATOR -- whose registry entry for A is written only after its Handshake call
+   returned.  [mrun ob c sched]: the world of model/ConnectRace.v (section "mutual dial") under an
+   arbitrary schedule of B's Connect (begin / handshake steps / addPeer / return), A's handler,
+   A's Connect (shortcut), A's stream opens and B's wrappers; [ob_deployed]: whether Connect
+   brackets its outbound handshake with beginHandshake (read off the source).  For every
+   schedule: what A's Connect returned is B's proven identity, no stream A opened is reset as
+   unknown, and what reached B's handlers carries A's proven identity.  No premise is needed: A
+   has registered B only after B's final message passed A's check. *)
+Theorem C20_usable_mutual_dial : forall (c : cfg) (sched : list mwho) (id : ident),
+  a_ret (mrun ob_deployed c sched) = Some id ->
+  (id = (pid_addr (ini c), ptype (ini c)) /\ sig_addr (ini c) = Some (pid_addr (ini c))) /\
+  Forall (fun s => s <> WUnknown /\ s <> WTorn /\
+                   forall j, s = WHandled j ->
+                             j = (pid_addr (rsp c), ptype (rsp c)) /\
+                             sig_addr (rsp c) = Some (pid_addr (rsp c)))
+         (bw (mrun ob_deployed c sched)).
+Proof. exact C20_mutual_stmt. Qed.
+Print Assumptions C20_usable_mutual_dial.
+
+(* ... and every such stream is with B's handler once B has taken its two remaining steps
+   (addPeer, return) and the stream's wrapper its three. *)
+Theorem C20_mutual_dial_handled_eventually : forall (c : cfg) (sched : list mwho) (k : nat),
+  (k < length (bw (mrun ob_deployed c sched)))%nat ->
+  nth_error (bw (mrun ob_deployed c (sched ++ [MB; MB] ++ [MBW k; MBW k; MBW k]))) k =
+  Some (WHandled (pid_addr (rsp c), ptype (rsp c))).
+Proof. exact C20_mutual_eventually_stmt. Qed.
+Print Assumptions C20_mutual_dial_handled_eventually.
+
+(* Without the bracket around the outbound handshake (only inbound handshakes on record, the
+   code before commit "accept streams from a peer while our own outbound handshake with it
+   completes"): two well-formed nodes and a schedule under which A's Connect succeeded, B does
+   register A two steps later, and A's stream was nevertheless reset as coming from an unknown
+   peer. *)
+Theorem C20_usable_mutual_dial_v1_refuted :
+  exists (c : cfg) (sched : list mwho) (id : ident),
+    (sig_addr (ini c) = Some (pid_addr (ini c)) /\ ks_addr (ini c) = pid_addr (ini c)) /\
+    (sig_addr (rsp c) = Some (pid_addr (rsp c)) /\ ks_addr (rsp c) = pid_addr (rsp c)) /\
+    a_ret (mrun false c sched) = Some id /\
+    b_reg (mrun false c (sched ++ [MB; MB])) = Some (pid_addr (rsp c), ptype (rsp c)) /\
+    nth_error (bw (mrun false c sched)) 0 = Some WUnknown.
+Proof. exact C20_mutual_v1_refuted_stmt. Qed.
+Print Assumptions C20_usable_mutual_dial_v1_refuted.
+(* Not covered: A dialling B with a handshake of its own at the same time (two handshakes in
+   opposite directions); streams opened from notifier.Connected callbacks take the same path as
+   MC/MO here (they need A's registry entry for B, which is what [a_ret] stands for). *)
+
 (* The wrapper as it was before the repair (no record of handshakes in progress, no waiting):
    two well-formed nodes and a schedule -- final write, return, open, lookup, then register --
    under which Connect succeeded, the responder does register the initiator, and the stream
@@ -160,6 +209,9 @@ Theorem C20_refusing_responder : forall (c : cfg) (sched : list who) (id : ident
 Proof. exact C20_refusing_responder_stmt. Qed.
 Print Assumptions C20_refusing_responder.
 
+(* [RRegister] always registers: peerRegistry.addPeer refuses (answers "exists") when the connection
+   has already closed, and then nobody is registered -- that is the transport-failure case named
+   below; on a closed connection the streams are gone anyway. *)
 (* Outside these theorems (see harness/props/C20.json): libp2p's stream negotiation, TCP and the
    Go scheduler; transport failures and context cancellation in the middle of a handshake; more
    than one handshake between the same two nodes. *)
